@@ -467,6 +467,19 @@ def handle (d : DState) (line : String) : DState × String :=
           let ps := if parts.isEmpty then "-" else ",".intercalate (parts.map (fun f => s!"{f.1}={showRows f.2}"))
           (d, s!"{ps} invalid={showNats "," single.2} single={showRows single.1} merged={showRows (BB.Files.mergeFiles parts)}")
       | _, _ => bad
+    | "CLIPLAN" =>
+      -- the API history of `bb run` for the given options and file lengths (rows are dummies)
+      match (kv args "bf").bind String.toNat?, (kv args "thr").bind parseRat, (kv args "chg").bind parseRat,
+            (kv args "tol").bind parseRat, (kv args "rnum").bind String.toNat?, (kv args "crounds").bind String.toNat?,
+            (kv args "lens").bind (parseNats ",") with
+      | some bf, some thr, some chg, some tol, some rnum, some crounds, some lens =>
+        let rr := kvD args "rrounds" "-"
+        match (if rr == "-" then some none else rr.toNat?.map some) with
+        | none => bad
+        | some rrounds =>
+          let o : BB.Cli.RunOpts := { bf := bf, thr := thr, chg := chg, tol := tol, crit := kvD args "crit" "diameter", refineCrit := kvD args "rcrit" "tolerance-diameter", refineNum := rnum, refineRounds := rrounds, reclusterRounds := crounds, saveCentroids := kvD args "cent" "1" == "1", saveTree := kvD args "tree" "0" == "1", overwrite := kvD args "overwrite" "0" == "1" }
+          (d, BB.Cli.showPlan (BB.Cli.runPlan o (lens.map (fun n => List.replicate n [])) []))
+      | _, _, _, _, _, _, _ => bad
     | "MINSAFE" =>
       match (kv args "n").bind String.toNat? with
       | some n => (d, match minSafe? n with | some w => w.name | none => "err:ValueError")
